@@ -55,12 +55,15 @@ def param_kinds(pt):
     return lead, kinds
 
 
+DEEP = False        # thorough tier: larger menus of argument shapes (set by run() before the workers are forked)
 U_SHAPES = ['a', '{bc}', '{d{e}f}', '{}', '\\zzK ', '{\\zzK}']
+U_EXTRA = ['{{}}', '{{x}y}', '{a\\zzK }', '{\\zzK\\zzK}']
+D_EXTRA = ['{}', '{{a}}', 'a{}b', '{a}b', '\\zzK\\zzK ']
 U_SHAPES_SMALL = ['a', '{bc}', '\\zzK ']
 
 
 def d_shapes(delim, other):
-    sh = ['ab', '', '{ab}', 'a{b}c', '{a}{b}', '\\zzK ']
+    sh = ['ab', '', '{ab}', 'a{b}c', '{a}{b}', '\\zzK '] + (D_EXTRA if DEEP else [])
     if other and other != delim and other not in ('{',):
         sh.append('a' + other + 'b')
     return sh
@@ -78,7 +81,7 @@ def call_variants(pt, full=True):
             elif len(kinds) >= 3 and not full:
                 menus.append(U_SHAPES_SMALL)
             else:
-                menus.append(U_SHAPES)
+                menus.append(U_SHAPES + U_EXTRA if (DEEP and len(kinds) <= 2) else U_SHAPES)
         elif k[0] == 'd':
             other = [d for d in delims if d != k[1]]
             menus.append([x + k[1] for x in d_shapes(k[1], other[0] if other else None)])
@@ -400,8 +403,10 @@ def run_block(block):
 
 
 def run(tier, seed, rep):
+    global DEEP
     state.pristine()
     quick = tier == 'quick'
+    DEEP = not quick
     blocks = []
     wr = ['top', 'grp', 'arg'] if quick else WRAPPERS
     for pt in PTS:
